@@ -161,6 +161,11 @@ def gen_species(rng, idx, kind, mapped=True, loaded=True, aa_vel=False, extra_re
 def gen_box(rng, triclinic):
     a, b, c = [round(rng.uniform(3.0, 9.0), 5) for _ in range(3)]
     if not triclinic:
+        if rng.random() < 0.25:
+            # a rectangular box SMALLER than the molecules written in it (molecules written whole across the boundary):
+            # the map is applied to the coordinates in the file, not to images of them (seed C05-14: molecules "re-joined"
+            # atom by atom before mapping)
+            a, b, c = [round(rng.uniform(0.2, 0.8), 5) for _ in range(3)]
         return [a, b, c]
     d, e, f = [round(rng.uniform(-1.5, 1.5), 5) for _ in range(3)]
     return [a, 0.0, 0.0, d, b, 0.0, e, f, c]
